@@ -13,7 +13,7 @@ from vf.ref import bencode, metafile as refmeta
 
 ID = "C07"
 LEVEL = "exploration"
-TECHNIQUE = "Hypothesis-generated edit sequences (library edit_torrent and CLI `edit`) over own and reference-encoded metafiles, checked after every step against a dict model plus raw-span / info-hash invariance"
+TECHNIQUE = "Hypothesis-generated edit sequences (library edit_torrent and CLI `edit`) over own and reference-encoded metafiles, checked after every step against a dict model plus raw-span / info-hash invariance ; thorough tier adds a coverage-guided (atheris/libFuzzer) stage over the same strategy"
 RULE = ("Cases: metafile (tool-made v1/v2/hybrid with any subset of optional fields, or reference-encoded with unknown extra keys at "
         "top level and in info) x sequence of 1..6 edit requests; each of the six fields is unnamed / set (string or list) / cleared; "
         "each request goes through edit_torrent or execute(['edit',...]). Oracle after every step: strict-decoded file == model "
